@@ -95,9 +95,15 @@ def resolve(rest):
     return False, stack
 
 
+PATH_MAX = 4096     # POSIX: no path longer than this can name a file; the statement fixes no smaller limit
+
+
 def refused_reason(rest):
     """Spellings the statement lists as never served (-> 404): doubled/leading separators,
-    backslashes, control characters (C0 and C1), reserved characters."""
+    backslashes, control characters (C0 and C1), reserved characters, over-long remainders
+    (longer than any path the file system accepts, however they would normalise)."""
+    if len(rest) > PATH_MAX:
+        return 'over-long'
     if rest.startswith('/') or '//' in rest:
         return 'doubled-separator'
     if '\\' in rest:
